@@ -87,6 +87,12 @@ func NewMon(mode int) *Mon {
 	return &Mon{Mode: mode, ByID: map[uuid.UUID]*Info{}, Calls: map[string]int{}, Inflight: map[string]int{}, Fail: map[string]bool{}, failSet: map[string]bool{}}
 }
 
+// SharePerAction makes m use the same per-action verdicts as o (ModePerAction across processes).
+func (m *Mon) SharePerAction(o *Mon) {
+	m.Fail = o.Fail
+	m.failSet = o.failSet
+}
+
 // Track registers every action of p under its name.
 func (m *Mon) Track(p *workflow.Plan) {
 	bi, si := -1, -1
@@ -298,6 +304,7 @@ type Vault struct {
 	LateWrites int
 	LastFilters []storage.Filters
 	Order       []uuid.UUID // creation order of plans
+	SeedOrder   []uuid.UUID // every object id in walk order (deterministic iteration)
 	ReadUnknownEmpty bool // mimic a store whose Read of an unknown id returns an empty plan and no error
 }
 
@@ -338,14 +345,19 @@ func (v *Vault) Seed(p *workflow.Plan) {
 	for it := range walk.Plan(p) {
 		switch x := it.Value.(type) {
 		case *workflow.Plan:
+			v.SeedOrder = append(v.SeedOrder, x.ID)
 			v.Img[x.ID] = &Image{Kind: workflow.OTPlan, Name: x.Name, Status: x.State.Status, Start: x.State.Start, End: x.State.End, Reason: x.Reason}
 		case *workflow.Checks:
+			v.SeedOrder = append(v.SeedOrder, x.ID)
 			v.Img[x.ID] = &Image{Kind: workflow.OTCheck, Name: ChecksName(x), Status: x.State.Status, Start: x.State.Start, End: x.State.End}
 		case *workflow.Block:
+			v.SeedOrder = append(v.SeedOrder, x.ID)
 			v.Img[x.ID] = &Image{Kind: workflow.OTBlock, Name: x.Name, Status: x.State.Status, Start: x.State.Start, End: x.State.End}
 		case *workflow.Sequence:
+			v.SeedOrder = append(v.SeedOrder, x.ID)
 			v.Img[x.ID] = &Image{Kind: workflow.OTSequence, Name: x.Name, Status: x.State.Status, Start: x.State.Start, End: x.State.End}
 		case *workflow.Action:
+			v.SeedOrder = append(v.SeedOrder, x.ID)
 			v.Img[x.ID] = &Image{Kind: workflow.OTAction, Name: x.Name, Status: x.State.Status, Start: x.State.Start, End: x.State.End, Attempts: attemptImages(x.Attempts)}
 		}
 	}
@@ -498,3 +510,95 @@ func (v *Vault) List(ctx context.Context, limit int) (chan storage.Stream[storag
 }
 
 var _ storage.Vault = (*Vault)(nil)
+
+// ---------- durable image after a crash ----------
+
+// ImageAt returns the durable image after the first c writes of the log, c being a (possibly symbolic)
+// crash index. Every scalar is an ite chain over the writes of its object (api.Ite*, no forking); only the
+// number of stored attempts per action, which is structure, is resolved by a solver-guided split.
+func (v *Vault) ImageAt(c int, init map[uuid.UUID]*Image) map[uuid.UUID]*Image {
+	out := map[uuid.UUID]*Image{}
+	// writes per object, in log order
+	per := map[uuid.UUID][]int{}
+	for i, w := range v.Log {
+		per[w.ID] = append(per[w.ID], i)
+	}
+	for _, id := range v.SeedOrder {
+		i0 := init[id]
+		if i0 == nil {
+			continue
+		}
+		im := &Image{Kind: i0.Kind, Name: i0.Name, Status: i0.Status, Start: i0.Start, End: i0.End, Reason: i0.Reason}
+		st, rs := int(i0.Status), int(i0.Reason)
+		nAtt := len(i0.Attempts)
+		maxAtt := nAtt
+		for _, wi := range per[id] {
+			w := v.Log[wi].Img
+			durable := wi < c // the (wi+1)-th write is durable when c >= wi+1
+			st = api.IteInt(durable, int(w.Status), st)
+			rs = api.IteInt(durable, int(w.Reason), rs)
+			im.Start = api.IteTime(durable, w.Start, im.Start)
+			im.End = api.IteTime(durable, w.End, im.End)
+			nAtt = api.IteInt(durable, len(w.Attempts), nAtt)
+			if len(w.Attempts) > maxAtt {
+				maxAtt = len(w.Attempts)
+			}
+		}
+		im.Status = workflow.Status(st)
+		im.Reason = workflow.FailureReason(rs)
+		if i0.Kind == workflow.OTAction && maxAtt > 0 {
+			n := api.Concretize(nAtt, 0, maxAtt)
+			for ai := 0; ai < n; ai++ {
+				var at AttemptImage
+				set := false
+				for _, wi := range per[id] {
+					w := v.Log[wi].Img
+					if len(w.Attempts) <= ai {
+						continue
+					}
+					wa := w.Attempts[ai]
+					if !set {
+						at = wa
+						set = true
+						continue
+					}
+					durable := wi < c
+					at.HasErr = api.IteBool(durable, wa.HasErr, at.HasErr)
+					at.Permanent = api.IteBool(durable, wa.Permanent, at.Permanent)
+					at.HasResp = api.IteBool(durable, wa.HasResp, at.HasResp)
+					at.Start = api.IteTime(durable, wa.Start, at.Start)
+					at.End = api.IteTime(durable, wa.End, at.End)
+				}
+				if !set && ai < len(i0.Attempts) {
+					at = i0.Attempts[ai]
+				}
+				im.Attempts = append(im.Attempts, at)
+			}
+		}
+		out[id] = im
+	}
+	return out
+}
+
+// Snapshot copies the current durable image (used as the initial image of a later ImageAt).
+func (v *Vault) Snapshot() map[uuid.UUID]*Image {
+	out := map[uuid.UUID]*Image{}
+	for id, im := range v.Img {
+		cp := *im
+		cp.Attempts = append([]AttemptImage(nil), im.Attempts...)
+		out[id] = &cp
+	}
+	return out
+}
+
+// SeedImage installs an explicit durable image for plan p (recovered process).
+func (v *Vault) SeedImage(p *workflow.Plan, img map[uuid.UUID]*Image) {
+	v.Seed(p)
+	for id, im := range img {
+		cp := *im
+		v.Img[id] = &cp
+	}
+}
+
+// ApplyImage overwrites the engine-owned fields of p (a private copy) with img, as a vault Read would return them.
+func (v *Vault) ApplyImage(p *workflow.Plan) { v.applyImage(p) }
